@@ -589,6 +589,17 @@ def run_query(w, q):
                 # no sample equals a NaN / an infinity: for the model any value that is not a sample
                 far = (Fraction(float(xs[-1])) if len(xs) else Fraction(0)) + 12345
                 return float(v), fmt(far)
+            if isinstance(v, str) and v.startswith("~"):
+                # a value a few units in the last place beside sample i (a bound recomputed by another route): it is not
+                # a sample; for the model any value that is not a sample
+                i, k_ = (int(t) for t in v[1:].split(":"))
+                if len(xs) == 0:
+                    return 0.5, "1/2"
+                val = float(xs[i % len(xs)])
+                for _ in range(abs(k_)):
+                    val = math.nextafter(val, math.inf if k_ > 0 else -math.inf)
+                far = Fraction(float(xs[-1])) + 12345
+                return val, fmt(far)
             if isinstance(v, str) and v.startswith("@"):
                 i = int(v[1:])
                 if len(xs) == 0:
